@@ -57,6 +57,8 @@ type World struct {
 	OutOrder  []string
 	AllProofs []*HProof
 	LockRing  *KeyRing // keys of the spending conditions used by mint-level honest users
+	// LastWalletOp: the wallet-level operation in progress (attribution of wire-level findings)
+	LastWalletOp string
 
 	yIndex   map[string]string
 	yIndexed int
